@@ -70,6 +70,14 @@ def make_tree(root):
     # in-directory symlinks (file and directory) whose targets live in the sibling that shares the base's name as a string prefix
     os.symlink(os.path.join("..", "base-evil", "x.bin"), os.path.join(b, "link_evil"))
     os.symlink(os.path.join("..", "base-evil"), os.path.join(b, "dir_evil"))
+    # files inside the base directory that are not regular files: a named pipe (opening it blocks until a writer shows
+    # up), a symlink to it, and - when the sandbox allows mknod - a character device with the numbers of /dev/zero
+    os.mkfifo(os.path.join(b, "pipe_in"))
+    os.symlink("pipe_in", os.path.join(b, "link_pipe"))
+    try:
+        os.mknod(os.path.join(b, "dev_zero"), 0o600 | stat.S_IFCHR, os.makedev(1, 5))
+    except OSError:
+        pass
     # inside names that also exist outside, to make ".." traversals land on real files
     w(os.path.join(root, "data.bin"), "ROOTDATA")
     return b
@@ -114,7 +122,7 @@ def extra_locations(root):
             "data.bin/", "sub//d2.bin", "sub/./d2.bin", "./data.bin", "sub/../data.bin", "sub/../../outside/secret.bin", "../base/data.bin",
             "../base-evil/x.bin", "..//outside/secret.bin", "dir_out/secret.bin", "dir_in/d2.bin", "dir_in/../data.bin", "dir_out/../base/data.bin",
             "link_out/", "..\\outside\\secret.bin", "sub\\..\\..\\outside\\secret.bin", "..\\data.bin", "sub\\d2.bin", "dir_out\\secret.bin",
-            "sub/..\\../outside/secret.bin", "..\\base-evil\\x.bin", "link_evil", "dir_evil/x.bin", "sub/../dir_evil/x.bin", "dir_evil/../base-evil/x.bin", "hard_out", "hard_in", "link_hard_out", "link_hard_in", "sub/../link_hard_out", "sub", ".", "", "..", "data.bin\x00x" if False else "data.bin x"]
+            "sub/..\\../outside/secret.bin", "..\\base-evil\\x.bin", "link_evil", "dir_evil/x.bin", "sub/../dir_evil/x.bin", "dir_evil/../base-evil/x.bin", "hard_out", "hard_in", "link_hard_out", "link_hard_in", "sub/../link_hard_out", "sub", ".", "", "..", "pipe_in", "link_pipe", "sub/../pipe_in", "dev_zero", "data.bin\x00x" if False else "data.bin x"]
 
 
 class _Timeout(Exception):
@@ -380,15 +388,29 @@ def _work(task):
         elif kind == "load":
             # a model loaded from a file gets the model's directory as base directory, whatever the spelling
             def all_ext(model):
+                # the harness's own walk over every graph of the model, function bodies included
                 out = []
-                for gph in [model.graph] + list(model.graph.subgraphs()):
-                    for val in gph.initializers.values():
-                        if isinstance(val.const_value, ir.ExternalTensor):
-                            out.append(val.const_value)
-                for nd in model.graph.all_nodes():
-                    for a in nd.attributes.values():
-                        if a.type == ir.AttributeType.TENSOR and isinstance(a.value, ir.ExternalTensor):
-                            out.append(a.value)
+
+                def walk(gph):
+                    if isinstance(gph, ir.Graph):
+                        for val in gph.initializers.values():
+                            if isinstance(val.const_value, ir.ExternalTensor):
+                                out.append(val.const_value)
+                    for nd in gph:
+                        for a in nd.attributes.values():
+                            if a.is_ref():
+                                continue
+                            if a.type == ir.AttributeType.TENSOR and isinstance(a.value, ir.ExternalTensor):
+                                out.append(a.value)
+                            elif a.type == ir.AttributeType.GRAPH:
+                                walk(a.as_graph())
+                            elif a.type == ir.AttributeType.GRAPHS:
+                                for sg in a.as_graphs():
+                                    walk(sg)
+
+                walk(model.graph)
+                for fn_ in model.functions.values():
+                    walk(fn_)
                 return out
 
             def cond(xv, then_g, name):
@@ -401,7 +423,8 @@ def _work(task):
                 nd.outputs[0].name = f"{name}_y"
                 return nd
 
-            placements = ("main", "body_with_node", "empty_body", "deep_empty_body", "node_attribute")
+            placements = ("main", "body_with_node", "empty_body", "deep_empty_body", "node_attribute", "constant_in_body_after_reference_attribute", "constant_in_function_body",
+                          "initializer_in_branch_of_function_body")
             for loc, place in [(l, pl) for l in ("data.bin", "../outside/secret.bin", "link_out", "hard_out", "link_hard_out", "dir_out/secret.bin", "sub/d2.bin") for pl in placements]:
                 x = ir.Value(name="x")
                 ext = ir.ExternalTensor(loc, 0, 4, ir.DataType.UINT8, shape=ir.Shape([4]), name="w", base_dir="")
@@ -419,11 +442,31 @@ def _work(task):
                 elif place == "deep_empty_body":
                     inner = cond(x, ir.Graph([], [v], nodes=[], initializers=[v], name="inner_then"), "inner")
                     node = cond(x, ir.Graph([], [inner.outputs[0]], nodes=[inner], name="then_g"), "n")
+                elif place == "constant_in_body_after_reference_attribute":
+                    kn = ir.Node("", "Constant", [], [ir.AttrTensor("value", ext)], name="kn")
+                    kn.outputs[0].name = "ko"
+                    node = cond(x, ir.Graph([], [kn.outputs[0]], nodes=[kn], name="then_g"), "n")
+                    # the same node with a reference attribute listed first
+                    node = ir.Node("", "If", [x], [ir.RefAttr("note", "outer_note", ir.AttributeType.INT)] + list(node.attributes.values()), name="n2")
+                elif place in ("constant_in_function_body", "initializer_in_branch_of_function_body"):
+                    fx = ir.Value(name="fx")
+                    if place == "constant_in_function_body":
+                        kn = ir.Node("", "Constant", [], [ir.AttrTensor("value", ext)], name="fk")
+                        kn.outputs[0].name = "fko"
+                        fnodes, fout = [kn], kn.outputs[0]
+                    else:
+                        bn = ir.Node("", "Identity", [v], name="fbn")
+                        bn.outputs[0].name = "fbo"
+                        fi = cond(fx, ir.Graph([], [bn.outputs[0]], nodes=[bn], initializers=[v], name="f_then"), "fi")
+                        fnodes, fout = [fi], fi.outputs[0]
+                    fgraph = ir.Graph([fx], [fout], nodes=fnodes, name="F_body", opset_imports={"": 20})
+                    funcs = [ir.Function("local", "F", "", graph=fgraph, attributes=[])]
+                    node = ir.Node("local", "F", [x], name="n")
                 else:
                     node = ir.Node("", "Constant", [], [ir.AttrTensor("value", ext)], name="n")
                 node.outputs[0].name = "y"
-                g = ir.Graph([x], [node.outputs[0]], nodes=[node], initializers=inits, name="g", opset_imports={"": 20})
-                m = ir.Model(g, ir_version=10)
+                g = ir.Graph([x], [node.outputs[0]], nodes=[node], initializers=inits, name="g", opset_imports={"": 20, "local": 1})
+                m = ir.Model(g, ir_version=10, functions=funcs if place in ("constant_in_function_body", "initializer_in_branch_of_function_body") else [])
                 ir.save(m, os.path.join(root, "base", "m.onnx"))
                 os.symlink("m.onnx", os.path.join(root, "base", "mlink.onnx")) if not os.path.lexists(os.path.join(root, "base", "mlink.onnx")) else None
                 spellings = [("absolute", os.path.join(root, "base", "m.onnx"), root), ("relative", "base/m.onnx", root), ("dot_relative", "./base/m.onnx", root),
@@ -525,7 +568,7 @@ def main(tier):
         "components": COMPONENTS, "max_components": k, "base_spellings": names, "entry_points": [e for e, _ in entry_points()],
     })
     r.assumptions += ["tmpfs sandbox that nobody else mutates; reference = realpath + stat (regular, st_nlink == 1, inside realpath(base))",
-                      "opens are observed through sys.addaudithook('open'); a fifo is not part of the tree (opening one blocks, covered by the 3 s alarm otherwise)",
+                      "opens are observed through sys.addaudithook('open'); a named pipe and a character device inside the base directory are part of the tree (a read that blocks on the pipe is cut by the 3 s alarm and reported as read_hangs)",
                       "over-rejection (raising although the reference would allow) is counted, not a violation"]
     return r.finish()
 
